@@ -688,3 +688,18 @@ def r2_11(run):
 
 
 RULES.append(("R2.11", r2_11))
+
+EXPLANATION += (' ' + '(R2.12, shared with C03 R3.7) a component writes its pressure-law terms (the lift of a compressor, the loss of a valve) into the rows of '
+                'the array it was handed: the row window is read from the window table of that array (idx_lookups of the same call for the reduced pit), '
+                'never from the full-pit table.')
+
+
+def r2_12(run):
+    """the momentum equation of a branch is the one of its own component: a hook that takes its row window from the full-pit table while
+    it works on the reduced pit writes its pressure lift into the rows of the element behind it as soon as a branch ahead is inactive
+    (that element then reports a pressure difference its own law forbids) -- shared with C03 R3.7."""
+    from .c03 import r3_7
+    r3_7(run)
+
+
+RULES.append(("R2.12", r2_12))
